@@ -274,6 +274,48 @@ func genTable(s *Stream, idx int, o *GenOpts) *TableDef {
 	return t
 }
 
+// oddIdentifiers: MySQL identifiers may hold any character but NUL - back-ticks,
+// dots, quotes, blanks, multi-byte text. One history in five renames some of its
+// schemas and tables that way; one in twelve (with two tables or more) makes the
+// first two tables a pair whose back-tick-quoted full names read the same
+// (`a`.`b`.`c` either way) although schema and table differ.
+func oddIdentifiers(s *Stream, tabs []*TableDef) {
+	odd := []string{"`", ".", " ", "'", "\"", "\\", "-", "$", "é", "表", "`.`", "``", "%", "/", "\n"}
+	mk := func(base string) string {
+		n := 1 + s.N(3)
+		out := base
+		for i := 0; i < n; i++ {
+			o := odd[s.N(len(odd))]
+			switch s.N(3) {
+			case 0:
+				out = o + out
+			case 1:
+				out = out + o
+			default:
+				k := s.N(len(out) + 1)
+				out = out[:k] + o + out[k:]
+			}
+		}
+		return out
+	}
+	if s.Chance(1, 5) {
+		for i, t := range tabs {
+			if s.Chance(1, 2) && len(t.Name) < 40 {
+				t.Name = mk(fmt.Sprintf("t%d", i))
+			}
+			if s.Chance(1, 3) && len(t.DB) < 40 {
+				t.DB = mk(t.DB)
+			}
+		}
+	}
+	if len(tabs) >= 2 && s.Chance(1, 12) {
+		parts := []string{"shop", "eu", "orders", "a", "b", "c", "x y", "d.e"}
+		a, b2, c := parts[s.N(len(parts))], parts[s.N(len(parts))], parts[s.N(len(parts))]
+		tabs[0].DB, tabs[0].Name = a+"`.`"+b2, c
+		tabs[1].DB, tabs[1].Name = a, b2+"`.`"+c
+	}
+}
+
 func (t *TableDef) typesAndMeta() (types, meta []byte, nullable []bool) {
 	for i := range t.Cols {
 		types = append(types, t.Cols[i].TypeCode)
@@ -554,7 +596,8 @@ func (b *builder) ignorable(ts uint32) {
 			b.add(evStop+0, ts, 0, nil, "STOP-like")
 		case 6:
 			// unknown statement
-			sql := []string{"SAVEPOINT sp1", "FLUSH TABLES", "GRANT ALL ON *.* TO u", "ANALYZE TABLE t1", "XA START 'x'", "", "#comment", "REPLACE INTO t VALUES (1)", "CALL p()"}[s.N(9)]
+			sql := []string{"SAVEPOINT sp1", "FLUSH TABLES", "GRANT ALL ON *.* TO u", "ANALYZE TABLE t1", "XA START 'x'", "", "#comment", "REPLACE INTO t VALUES (1)", "CALL p()",
+				"SAVEPOINT BEGIN", "CALL COMMIT", "XA ROLLBACK", "-- BEGIN"}[s.N(13)]
 			b.queryEvent(ts, b.pickDB(), sql)
 		}
 	}
@@ -747,8 +790,10 @@ func (b *builder) pickTables() []*TableDef {
 	return out
 }
 
-var dmlSQL = []string{"INSERT INTO t1 VALUES (1)", "UPDATE t1 SET a=2", "DELETE FROM t1 WHERE a=1", "insert into x select * from y", "Update t set z=1", "delete from q"}
-var ddlSQL = []string{"CREATE TABLE t9 (a int)", "ALTER TABLE t1 ADD c int", "DROP TABLE t9", "TRUNCATE TABLE t1", "RENAME TABLE a TO b", "SET PASSWORD FOR u='x'", "create index i on t(a)", "drop database d2", "CREATE", "truncate t2", "Alter table q engine=innodb"}
+var dmlSQL = []string{"INSERT INTO t1 VALUES (1)", "UPDATE t1 SET a=2", "DELETE FROM t1 WHERE a=1", "insert into x select * from y", "Update t set z=1", "delete from q",
+	"INSERT INTO t SELECT * FROM COMMIT", "DELETE FROM BEGIN", "UPDATE t SET a=1 WHERE b IN (SELECT c FROM ROLLBACK)", "insert into t values ('BEGIN')"}
+var ddlSQL = []string{"CREATE TABLE t9 (a int)", "ALTER TABLE t1 ADD c int", "DROP TABLE t9", "TRUNCATE TABLE t1", "RENAME TABLE a TO b", "SET PASSWORD FOR u='x'", "create index i on t(a)", "drop database d2", "CREATE", "truncate t2", "Alter table q engine=innodb",
+	"RENAME TABLE a TO BEGIN", "CREATE PROCEDURE p() COMMIT", "ALTER TABLE t RENAME TO ROLLBACK", "DROP TABLE begin", "CREATE TABLE COMMIT (a int) COMMENT='BEGIN'"}
 
 func stmtTypeOf(sql string) int {
 	w := sql
@@ -810,7 +855,7 @@ func (b *builder) txBody(ts uint32) []ExpEvent {
 		case 3:
 			// DDL that does not commit implicitly is logged inside the group
 			exps = append(exps, b.queryChange(ts, []string{"CREATE TEMPORARY TABLE tmp1 (a int)", "DROP TEMPORARY TABLE tmp1",
-				"create temporary table t_tmp like t1", "ALTER TABLE tmp1 ADD b int", "TRUNCATE TABLE tmp1"}[s.N(5)]))
+				"create temporary table t_tmp like t1", "ALTER TABLE tmp1 ADD b int", "TRUNCATE TABLE tmp1", "DROP TEMPORARY TABLE IF EXISTS COMMIT", "CREATE TEMPORARY TABLE BEGIN (a int)"}[s.N(7)]))
 		}
 		ts = b.h.ts(s)
 	}
@@ -911,7 +956,8 @@ func (b *builder) addUnit(kind unitKind) {
 		ev := b.curFile().Events[len(b.curFile().Events)-1]
 		u.Tx = &ExpTx{Unit: b.unit, Next: b.posOf(ev), Timestamp: int64(ev.Timestamp), Events: exps, Commit: ev}
 	case uUnknownStmt:
-		sql := []string{"SAVEPOINT sp1", "FLUSH TABLES", "GRANT ALL ON *.* TO u", "ANALYZE TABLE t1", "", "beginx", "COMMITTED", "rollbackx y"}[s.N(8)]
+		sql := []string{"SAVEPOINT sp1", "FLUSH TABLES", "GRANT ALL ON *.* TO u", "ANALYZE TABLE t1", "", "beginx", "COMMITTED", "rollbackx y",
+			"SAVEPOINT COMMIT", "CALL BEGIN", "XA COMMIT", "GRANT SELECT ON *.* TO ROLLBACK"}[s.N(12)]
 		b.queryEvent(ts, b.pickDB(), sql)
 	case uIgnorable:
 		b.ignorable(ts)
@@ -1066,11 +1112,27 @@ func genHistory(s *Stream, o0 *GenOpts) *History {
 			idBase = 1<<48 - 20 - uint64(ntab)
 		}
 	}
+	if s.Chance(1, 8) {
+		// one table sits exactly on an id next to a byte-width boundary (all-ones
+		// in 1, 2, 3 or 4 bytes and the value after it, sign bits): ordinary ids
+		// that a decoder may mistake for a reserved value
+		pivots := []uint64{0xff, 0x100, 0xffff, 0x10000, 0xffffff, 0x1000000, 0x7fffffff, 0x80000000}
+		if !h.Cfg.TableID4 {
+			pivots = append(pivots, 0xffffffff, 0x100000000, 0x7fffffffffff, 0x800000000000)
+		}
+		pv := pivots[s.N(len(pivots))]
+		k := uint64(s.N(ntab))
+		if k >= pv {
+			k = pv - 1
+		}
+		idBase = pv - k
+	}
 	for i := 0; i < ntab; i++ {
 		t := genTable(s, i, o)
 		t.ID = idBase + uint64(i)
 		h.Tables = append(h.Tables, t)
 	}
+	oddIdentifiers(s, h.Tables)
 	if ntab >= 2 && manyTables == 0 && s.Chance(1, 6) {
 		// confusable table ids: every id is the first one with two bytes swapped or
 		// one byte copied over another (id decoding slips collide exactly on these)
